@@ -13,6 +13,7 @@ import (
 	"math/rand"
 	"os"
 	"strings"
+	"time"
 
 	"github.com/smart-core-os/sc-golang/verifharness/lib"
 )
@@ -264,6 +265,10 @@ func monitorGenID(m *lib.Monitor, s Script, i int, got, pre string) {
 func fixedScripts() []Script {
 	zeros := Cfg{Kind: "coll", Tick: 1, Icpt: "lower"}
 	return []Script{
+		// boundary write times (zero time.Time, Unix epoch): stored and announced as given
+		{Cfg: Cfg{Kind: "coll", Tick: 1}, Ops: []Op{{Op: "add", ID: "a", Msg: "1//-", Opts: []string{"wt=" + zeroInstant}},
+			{Op: "upd", ID: "a", Msg: "2//-", Opts: []string{"wt=" + showTime(time.Unix(0, 0))}}, {Op: "upd", ID: "a", Msg: "3//-", Opts: []string{"wt=" + zeroInstant}}}},
+		{Cfg: Cfg{Kind: "val", Tick: 1}, Ops: []Op{{Op: "vset", Msg: "1//-", Opts: []string{"wt=" + zeroInstant}}}},
 		// generated id under a lower-casing id interceptor (all-zero rng -> "AAAAAAAA")
 		{Cfg: zeros, Ops: []Op{{Op: "add", ID: "", Msg: "1//-", Opts: []string{"gid", "icb"}}, {Op: "list"}}},
 		// forced collisions and exhaustion: 11 generated ids from an all-zero rng
